@@ -37,18 +37,54 @@ def local_names(prog):
     return names - {"tr"}
 
 
+def add_scope_shapes(p):
+    """Functions built around one name (zx) that is bound several times: twice in one nested block, by a
+    pattern, by a loop, by a closure parameter -- with the outer binding used again afterwards."""
+    import gen_prog
+    g = gen_prog.Gen(0)
+    g.nid = 600000
+    n = g.node
+    V = lambda x: n("var", n=x)
+    I = lambda v: n("int", v=v)
+    P = lambda op, l, r: n("paren", e=n("bin", op=op, l=l, r=r))
+    zs1 = {"n": "zs1", "ps": ["k"], "pt": ["Int"], "rt": "Int", "line": 0, "b": [
+        n("let", n="zx", e=I(1)),
+        n("if", c=P(">", V("k"), I(0)), inline=False, f=[], **{"else": False},
+          t=[n("let", n="zx", e=I(10)), n("let", n="zx", e=P("+", V("zx"), I(1))), n("show", e=V("zx"))]),
+        P("+", V("zx"), I(100))]}
+    zs2 = {"n": "zs2", "ps": ["zx"], "pt": ["Int"], "rt": "Int", "line": 0, "b": [
+        n("match", s=n("mcall", m="get", recv=n("list", xs=[I(5)]), args=[V("zx")]), arms=[
+            {"v": "Some", "bind": "zx", "wild": False, "b": [n("show", e=P("*", V("zx"), I(2)))]},
+            {"v": "None", "bind": "", "wild": False, "b": [n("show", e=V("zx"))]}]),
+        n("for", n="zx", it=n("list", xs=[I(7), I(8)]), b=[n("show", e=V("zx"))]),
+        n("let", n="zc", e=n("lam", ps=["zx"], rt="Int", b=[P("+", V("zx"), I(1))])),
+        P("+", n("call", f=V("zc"), args=[I(30)]), V("zx"))]}
+    p["funs"] += [zs1, zs2]
+    for f, a in (("zs1", 1), ("zs1", 0), ("zs2", 0), ("zs2", 3)):
+        p["main"].append(n("show", e=n("call", f=V(f), args=[I(a)])))
+
+
 def run(tier, seed):
     ck = Check("C19", "model_checking", tier, seed)
     rnd = random.Random(seed * 67 + 19)
-    tres, origs = rf.originals(seed + 191, 120 if tier == "quick" else 1200, size=5, err_rate=0.1, only_ok=False, features={"ext": True})
+    import gen_prog
+    import refrun
+    progs, srcs = refrun.gen_programs(seed + 191, 120 if tier == "quick" else 1200, 5, err_rate=0.1, features={"ext": True})
+    for p in progs:
+        if p["id"] % 4 == 0:
+            add_scope_shapes(p)
+            srcs[p["id"]] = gen_prog.render(p)
+    tres, exp = refrun.ref_expect(progs)
     ck.add_tlc(tres)
+    origs = [(p, srcs[p["id"]], exp[p["id"]]) for p in progs if exp[p["id"]]["outcome"] not in ("fuel", "big")]
     toks = batch("frontend", [{"id": i, "src": s, "tokens": True, "check": False, "format": False} for i, (_, s, _) in enumerate(origs)], timeout_per=2.0)
     jobs, meta = [], []
     for (p, s, e), t in zip(origs, toks):
         names = local_names(p)
         cand = [tk for tk in (t.get("tokens") or []) if tk["text"] in names]
         rnd.shuffle(cand)
-        for tk in cand[:4 if tier == "quick" else 8]:
+        cand.sort(key=lambda tk: 0 if tk["text"] == "zx" else 1)        # every occurrence of the shapes' name first
+        for tk in cand[:(4 if tier == "quick" else 8) + sum(1 for tk in cand if tk["text"] == "zx")]:
             jobs.append((["reftest-rename", "--new-name", NEW, "FILE", str(tk["start"])], s))
             meta.append((p, s, e, tk))
     res = rf.cli(jobs)
